@@ -23,6 +23,7 @@ import (
 	settingctl "github.com/DataDog/extendeddaemonset/controllers/extendeddaemonsetsetting"
 	podtplctl "github.com/DataDog/extendeddaemonset/controllers/podtemplate"
 	"github.com/DataDog/extendeddaemonset/pkg/controller/utils/comparison"
+	podutils "github.com/DataDog/extendeddaemonset/pkg/controller/utils/pod"
 
 	"verifharness/canon"
 )
@@ -44,6 +45,8 @@ type simWorld struct {
 	mode       edsv1.ExtendedDaemonSetSpecStrategyCanaryValidationMode
 	seq        int
 	totalWrites int
+	// globalLog[g] = "verb:Kind" of global write number g (fault placement by kind of write)
+	globalLog []string
 	// faults by global write index (scenario_faults): index -> kind
 	globalFaults map[int]string
 	faultFired   bool
@@ -65,6 +68,7 @@ func (w *simWorld) build(objs []client.Object) {
 		w.writeCount++
 		g := w.totalWrites
 		w.totalWrites++
+		_ = g
 		if f, ok := w.globalFaults[g]; ok {
 			w.faultFired = true
 			return f
@@ -94,6 +98,7 @@ func (w *simWorld) build(objs []client.Object) {
 			w.wl.mu.Unlock()
 			return fmt.Errorf("injected: process stopped")
 		}
+		w.globalLog = append(w.globalLog, kind+":"+kindOf(obj))
 		f := fault()
 		if f == "crash" {
 			// the process stops immediately before this write: neither it nor any later write of this
@@ -171,10 +176,10 @@ func newSimWorld(objs []client.Object, aff bool, mode edsv1.ExtendedDaemonSetSpe
 
 // quiet runs f without recording its writes and without faults (harness-side actions).
 func (w *simWorld) quiet(f func()) {
-	savedWl, savedF, savedC, savedT, savedG := w.wl, w.faults, w.writeCount, w.totalWrites, w.globalFaults
+	savedWl, savedF, savedC, savedT, savedG, savedL := w.wl, w.faults, w.writeCount, w.totalWrites, w.globalFaults, w.globalLog
 	w.wl, w.faults, w.globalFaults = &writeLog{}, nil, nil
 	f()
-	w.wl, w.faults, w.writeCount, w.totalWrites, w.globalFaults = savedWl, savedF, savedC, savedT, savedG
+	w.wl, w.faults, w.writeCount, w.totalWrites, w.globalFaults, w.globalLog = savedWl, savedF, savedC, savedT, savedG, savedL
 }
 
 func (w *simWorld) allObjects() []client.Object {
@@ -438,3 +443,35 @@ func hashOfTemplate(id int) string {
 }
 
 var _ = rand.Intn
+
+// doubledNodes lists the nodes that carry more than one live (not terminating, not Failed/Succeeded)
+// daemon pod of the EDS in the store: "one pod per node at any intermediate point".
+func (w *simWorld) doubledNodes(ns, edsName string) []string {
+	out := []string{}
+	w.quiet(func() {
+		pl := &corev1.PodList{}
+		_ = w.cl.List(context.TODO(), pl, client.InNamespace(ns))
+		cnt := map[string]int{}
+		for k := range pl.Items {
+			p := &pl.Items[k]
+			if p.Labels[edsv1.ExtendedDaemonSetNameLabelKey] != edsName || p.DeletionTimestamp != nil {
+				continue
+			}
+			if p.Status.Phase == corev1.PodFailed || p.Status.Phase == corev1.PodSucceeded || p.Status.Phase == corev1.PodUnknown {
+				continue
+			}
+			n, err := podutils.GetNodeNameFromPod(p)
+			if err != nil || n == "" {
+				continue
+			}
+			cnt[n]++
+		}
+		for n, c := range cnt {
+			if c > 1 {
+				out = append(out, n)
+			}
+		}
+	})
+	sort.Strings(out)
+	return out
+}
